@@ -216,7 +216,11 @@ def streams(rng, tier):
         s = G.render(rng, f)
         if rng.random() < 0.1: s = gen.mutate(rng, s, G.MUT_CH)
         out.append(Case("law-req-prefix", "law.k.req", [s, rng.choice(G.REQ_PREFIXES), rng.choice(["", "", "\n"])], kind="law"))
-    # long or-lists / and-lists
+    # long or-lists / and-lists; one very long flat formula (length must not turn into recursion depth)
+    for n in ([1300] if q else [1300, 3000, 6000]):
+        f = G.long_expr(rng, n); s = G.render(rng, f)
+        out.append(Case("very-long-lists", "k.str", [s]))
+        out.append(Case("law-very-long-lists", "law.k.roundtrip", [s, json.dumps(G.env_for(rng, f))], kind="law"))
     for _ in range(250 if q else 6000):
         f = G.long_expr(rng, rng.randrange(4, 41))
         s = G.render(rng, f, outer=rng.choice([0, 0, 1]))
